@@ -64,3 +64,66 @@ def bounded(seed=0):
     if bad:
         out["broken"] = [f"native gauge run disagrees with the proved covariance: {bad[0]}"]
     return out
+
+
+PHASE_SIGNS = (+1, -1)       # narrowed to the convention of the code after the first scenario
+
+
+def run_pairs(seed=0):
+    """whole-run clause, bounded: the same simulation in two gauges (A and A + c with psi_0 -> psi_0 exp(i c.r), c a uniform vector) gives the
+    same |psi|, supercurrent, normal current and potential differences at every recorded step.  Scenarios: static field with / without
+    screening, and zero field with screening and a bias current."""
+    import logging
+    import os
+    import tempfile
+    logging.disable(logging.CRITICAL)
+    import h5py
+    import tdgl
+    from tdgl.solver.solver import TDGLSolver
+    from checks import update_native
+    dev = update_native.device()
+    bad, n = [], 0
+    c = np.array([0.7, -0.4])
+
+    def frames(path):
+        out = []
+        with h5py.File(path, "r") as f:
+            for k in sorted(f["data"], key=int):
+                g = f["data"][k]
+                mu = np.array(g["mu"])
+                out.append(dict(abs_psi=np.abs(np.array(g["psi"])), js=np.array(g["supercurrent"]), jn=np.array(g["normal_current"]), dmu=mu - mu[0]))
+        return out
+    with tempfile.TemporaryDirectory() as td:
+        for tag, B, screening, cur in (("static field", 0.3, False, None), ("static field, screening", 0.3, True, None),
+                                       ("zero field, screening, bias current", 0.0, True, dict(source=3.0, drain=-3.0))):
+            runs = {}
+            for sign in (0, +1):
+                def field(x, y, z, sign=sign, B=B):
+                    return np.stack([-0.5 * B * y + sign * c[0], 0.5 * B * x + sign * c[1], 0 * x], axis=1)
+                o = tdgl.SolverOptions(solve_time=0.3, include_screening=screening, adaptive=False, dt_init=1e-2, save_every=20, field_units="mT",
+                                       output_file=os.path.join(td, f"g{n}_{sign}.h5"))
+                s = TDGLSolver(dev, o, applied_vector_potential=field, terminal_currents=cur)
+                runs[sign] = (s, o)
+            s0 = runs[0][0]
+            A0 = np.array(s0.current_A_applied)
+            ref = frames(s0.solve().path)
+            ok_any, devs = False, {}
+            for sign in (+1,):
+                s1 = runs[sign][0]
+                dA = np.array(s1.current_A_applied) - A0            # uniform dimensionless shift (rows identical)
+                shift = dA[0]
+                for phase_sign in PHASE_SIGNS:
+                    s2 = TDGLSolver(dev, runs[sign][1], applied_vector_potential=s1.applied_vector_potential, terminal_currents=cur)
+                    s2.psi_init = s2.psi_init * np.exp(phase_sign * 1j * (np.asarray(dev.mesh.sites) @ shift))
+                    got = frames(s2.solve().path)
+                    dev_max = max(float(np.abs(a[k] - b[k]).max()) for a, b in zip(ref, got) for k in a)
+                    devs[(sign, phase_sign)] = dev_max
+            n += 1
+            best = min(devs.values())
+            if best <= 1e-7 and len(devs) > 1:
+                globals()["PHASE_SIGNS"] = (min(devs, key=devs.get)[1],)
+            if best > 1e-7:
+                bad.append(dict(what="the run depends on the gauge: no uniformly shifted vector potential (with the gauge-transformed initial state) reproduces the frames",
+                                scenario=tag, smallest_max_deviation=best, deviations={str(k): v for k, v in devs.items()}))
+    logging.disable(logging.NOTSET)
+    return bad, n
